@@ -70,9 +70,9 @@ def InvQ (s : State) : Prop :=
 /-- notification grammar, by worker position -/
 def InvG (s : State) : Prop :=
   match s.worker with
-  | .idle | .finished | .running .notifyStart _ => Lang s.notes
-  | .running .next _ | .running (.run _) _ | .running .notifyResult _ => Open s.notes
-  | .running .check _ | .running .exit _ => Open s.notes ∧ Lang s.notes
+  | .idle | .finished | .running .notifyStart _ => Lang s.sent
+  | .running .next _ | .running (.run _) _ | .running .notifyResult _ => Open s.sent
+  | .running .check _ | .running .exit _ => Open s.sent ∧ Lang s.sent
 
 /-- `working_` is true exactly from the locked block of `StartWork` until the worker's successful
 `FinishWork()`; while the client sits between that block and the launch, the previous worker (if
@@ -82,6 +82,11 @@ def InvW (s : State) : Prop :=
   | .swJoin _ _ => s.wflag = true ∧ s.settled = true
   | .swLaunch _ _ => s.wflag = true ∧ s.worker = .idle
   | _ => (s.wflag = true ↔ s.settled = false)
+
+/-- the maintenance flag cannot be changed under a work thread that still has work to look for:
+from its launch until its successful `FinishWork()` the flag is the mode it was launched with
+(`StartWork` only stores the mode when `working_` is false) -/
+def InvF (s : State) : Prop := s.settled = false → s.flag = s.wmode
 
 /-- nothing is left behind: between two API calls, when `working_` is false the queue is empty -/
 def InvL (s : State) : Prop :=
@@ -101,8 +106,28 @@ def CPc.isLaunch : CPc → Bool
   | .swLaunch _ _ => true
   | _ => false
 
-/-- the script never takes the non-maintenance `StartWork(false)` path -/
-def MaintOnly (script : List Op) : Prop := ∀ op ∈ script, ∀ o, op ≠ Op.recover o
+/-- the call passes `maintenance_mode = false` to `StartWork` -/
+def Op.nonMaint : Op → Bool
+  | .recover _ => true
+  | .startDirect mode => !mode
+  | _ => false
+
+/-- the script never takes a non-maintenance `StartWork(false)` path (the recovery of
+`UserDictionary::Load`, a direct `Deployer::StartWork()`) -/
+def MaintOnly (script : List Op) : Prop := ∀ op ∈ script, op.nonMaint = false
+
+/-- the script never removes the notification handler -/
+def KeepsHandler (script : List Op) : Prop := ∀ op ∈ script, op ≠ Op.clearHandler
+
+/-- the script never stops the service -/
+def NoFinalize (script : List Op) : Prop := ∀ op ∈ script, op ≠ Op.finalize
+
+/-- with a handler installed throughout, every notification sent was heard -/
+def InvH (s : State) : Prop :=
+  KeepsHandler s.script ∧ s.handler = true ∧ s.notes = s.sent
+
+/-- without `RimeFinalize` the service stays started -/
+def InvS (s : State) : Prop := NoFinalize s.script ∧ s.started = true
 
 /-- with API maintenance calls only, a worker only ever runs with the maintenance flag set -/
 def InvM (s : State) : Prop :=
@@ -111,7 +136,9 @@ def InvM (s : State) : Prop :=
 
 /-! ### preservation by every step of either thread -/
 
-attribute [simp] Ev.task? Ev.sched? Ev.note?
+attribute [simp] Ev.task? Ev.sched? Ev.note? Ev.sent?
+
+attribute [simp] State.noteEv
 attribute [local simp] List.filterMap_cons
 set_option linter.unusedVariables false
 set_option linter.unusedSimpArgs false
@@ -141,7 +168,7 @@ theorem invQ_client {s s' : State} (hw : InvW s) (h : InvQ s) (hs : clientStep s
       all_goals (try (obtain ⟨_, hs⟩ := hs))
       all_goals (try subst hs)
       all_goals (try simp_all [State.working, Worker.working])
-      rcases hw' : s.worker with _ | ⟨pc, f⟩ | _ <;> simp_all
+      all_goals (rcases hw' : s.worker with _ | ⟨pc, f⟩ | _ <;> simp_all)
   all_goals (try split at hs)
   all_goals (try split at hs)
   all_goals (try simp [State.finishOp, afterPush] at hs)
@@ -174,7 +201,7 @@ theorem invW_client {s s' : State} (h : InvW s) (hs : clientStep s = some s') : 
       all_goals (try (obtain ⟨_, hs⟩ := hs))
       all_goals (try subst hs)
       all_goals (try simp_all [State.working, Worker.working, State.settled])
-      rcases hw' : s.worker with _ | ⟨pc, f⟩ | _ <;> simp_all
+      all_goals (rcases hw' : s.worker with _ | ⟨pc, f⟩ | _ <;> simp_all)
   all_goals (try split at hs)
   all_goals (try split at hs)
   all_goals (try simp [State.finishOp, afterPush] at hs)
@@ -217,7 +244,7 @@ theorem invL_client {s s' : State} (hw : InvW s) (h : InvL s) (hs : clientStep s
 
 theorem invG_worker {s s' : State} (h : InvG s) (hs : workerStep s = some s') : InvG s' := by
   unfold workerStep at hs
-  unfold InvG State.notes at *
+  unfold InvG State.sent at *
   split at hs
   all_goals (try split at hs)
   all_goals simp at hs
@@ -229,7 +256,7 @@ theorem invG_worker {s s' : State} (h : InvG s) (hs : workerStep s = some s') : 
 
 theorem invG_client {s s' : State} (hw : InvW s) (h : InvG s) (hs : clientStep s = some s') : InvG s' := by
   unfold clientStep at hs
-  unfold InvG State.notes at *
+  unfold InvG State.sent at *
   unfold InvW at hw
   split at hs
   · split at hs
@@ -241,7 +268,7 @@ theorem invG_client {s s' : State} (hw : InvW s) (h : InvG s) (hs : clientStep s
       all_goals (try (obtain ⟨_, hs⟩ := hs))
       all_goals (try subst hs)
       all_goals (try simp_all [State.working, Worker.working])
-      rcases hw' : s.worker with _ | ⟨pc, f⟩ | _ <;> simp_all
+      all_goals (rcases hw' : s.worker with _ | ⟨pc, f⟩ | _ <;> simp_all)
   all_goals (try split at hs)
   all_goals (try split at hs)
   all_goals (try simp [State.finishOp, afterPush] at hs)
@@ -272,7 +299,7 @@ theorem invM_client {s s' : State} (h : InvM s) (hs : clientStep s = some s') : 
       all_goals (try simp at hs)
       all_goals (try (obtain ⟨_, hs⟩ := hs))
       all_goals (try subst hs)
-      all_goals (try simp_all [State.working, Worker.working, CPc.mode, CPc.isLaunch])
+      all_goals (try simp_all [State.working, Worker.working, CPc.mode, CPc.isLaunch, Op.nonMaint])
   all_goals (try split at hs)
   all_goals (try split at hs)
   all_goals (try simp [State.finishOp, afterPush] at hs)
@@ -281,10 +308,49 @@ theorem invM_client {s s' : State} (h : InvM s) (hs : clientStep s = some s') : 
   all_goals (try simp_all [State.working, Worker.working, CPc.mode, CPc.isLaunch])
   rename_i os _ _ _ _; cases os <;> simp_all
 
+theorem invF_worker {s s' : State} (h : InvF s) (hs : workerStep s = some s') : InvF s' := by
+  unfold workerStep at hs
+  unfold InvF State.settled at *
+  split at hs
+  all_goals (try split at hs)
+  all_goals simp at hs
+  all_goals subst hs
+  all_goals simp_all
+
+theorem invF_client {s s' : State} (hw : InvW s) (h : InvF s) (hs : clientStep s = some s') : InvF s' := by
+  unfold clientStep at hs
+  unfold InvF at *
+  unfold InvW at hw
+  split at hs
+  · split at hs
+    · simp at hs
+    · rename_i op rest hsc
+      cases op <;> simp [beginOp, State.finishOp, afterPush] at hs
+      all_goals (try split at hs)
+      all_goals (try simp at hs)
+      all_goals (try (obtain ⟨_, hs⟩ := hs))
+      all_goals (try subst hs)
+      all_goals (try simp_all [State.working, Worker.working, State.settled])
+  all_goals (try split at hs)
+  all_goals (try split at hs)
+  all_goals (try simp [State.finishOp, afterPush] at hs)
+  all_goals (try (obtain ⟨_, hs⟩ := hs))
+  all_goals (try subst hs)
+  all_goals (try simp_all [State.working, Worker.working, State.settled])
+
 /-! ### the invariants hold on every reachable state -/
 
 /-- the schedule-independent invariants together -/
 def Inv (s : State) : Prop := InvQ s ∧ InvG s ∧ InvW s ∧ InvL s
+
+theorem invF_reach_aux {script : List Op} {s : State} (h : Reach (init script) s)
+    (inv : ∀ s, Reach (init script) s → InvW s) : InvF s := by
+  induction h with
+  | refl => simp [InvF, init, State.settled]
+  | step t hr hs ih =>
+    cases t with
+    | client => exact invF_client (inv _ hr) ih hs
+    | worker => exact invF_worker ih hs
 
 theorem inv_init (script : List Op) : Inv (init script) := by
   refine ⟨?_, ?_, ?_, ?_⟩
@@ -306,6 +372,9 @@ theorem inv_reach {script : List Op} {s : State} (h : Reach (init script) s) : I
   | refl => exact inv_init script
   | step t _ hs ih => exact inv_step ih hs
 
+theorem invF_reach {script : List Op} {s : State} (h : Reach (init script) s) : InvF s :=
+  invF_reach_aux h (fun _ hr => (inv_reach hr).2.2.1)
+
 theorem invM_init {script : List Op} (hm : MaintOnly script) : InvM (init script) := by
   simp [InvM, init, CPc.mode, CPc.isLaunch, State.working, Worker.working]; exact hm
 
@@ -317,6 +386,87 @@ theorem invM_reach {script : List Op} (hm : MaintOnly script) {s : State}
     cases t with
     | client => exact invM_client ih hs
     | worker => exact invM_worker ih hs
+
+/-! ### handler installed throughout: everything sent was heard; service never stopped: it stays started -/
+
+theorem invH_worker {s s' : State} (h : InvH s) (hs : workerStep s = some s') : InvH s' := by
+  unfold workerStep at hs
+  unfold InvH State.notes State.sent at *
+  obtain ⟨hk, hh, hn⟩ := h
+  split at hs
+  all_goals (try split at hs)
+  all_goals simp at hs
+  all_goals subst hs
+  all_goals simp_all
+
+theorem invH_client {s s' : State} (h : InvH s) (hs : clientStep s = some s') : InvH s' := by
+  unfold clientStep at hs
+  unfold InvH KeepsHandler State.notes State.sent at *
+  obtain ⟨hk, hh, hn⟩ := h
+  split at hs
+  · split at hs
+    · simp at hs
+    · rename_i op rest hsc
+      cases op <;> simp [beginOp, State.finishOp, afterPush] at hs
+      all_goals (try split at hs)
+      all_goals (try simp at hs)
+      all_goals (try (obtain ⟨_, hs⟩ := hs))
+      all_goals (try subst hs)
+      all_goals (try simp_all)
+  all_goals (try split at hs)
+  all_goals (try split at hs)
+  all_goals (try simp [State.finishOp, afterPush] at hs)
+  all_goals (try (obtain ⟨_, hs⟩ := hs))
+  all_goals (try subst hs)
+  all_goals (try simp_all)
+
+theorem invS_worker {s s' : State} (h : InvS s) (hs : workerStep s = some s') : InvS s' := by
+  unfold workerStep at hs
+  unfold InvS at *
+  split at hs
+  all_goals (try split at hs)
+  all_goals simp at hs
+  all_goals subst hs
+  all_goals simp_all
+
+theorem invS_client {s s' : State} (h : InvS s) (hs : clientStep s = some s') : InvS s' := by
+  unfold clientStep at hs
+  unfold InvS NoFinalize at *
+  obtain ⟨hk, hh⟩ := h
+  split at hs
+  · split at hs
+    · simp at hs
+    · rename_i op rest hsc
+      cases op <;> simp [beginOp, State.finishOp, afterPush] at hs
+      all_goals (try split at hs)
+      all_goals (try simp at hs)
+      all_goals (try (obtain ⟨_, hs⟩ := hs))
+      all_goals (try subst hs)
+      all_goals (try simp_all)
+  all_goals (try split at hs)
+  all_goals (try split at hs)
+  all_goals (try simp [State.finishOp, afterPush] at hs)
+  all_goals (try (obtain ⟨_, hs⟩ := hs))
+  all_goals (try subst hs)
+  all_goals (try simp_all)
+
+theorem invH_reach {script : List Op} (hk : KeepsHandler script) {s : State}
+    (h : Reach (init script) s) : InvH s := by
+  induction h with
+  | refl => exact ⟨hk, rfl, rfl⟩
+  | step t _ hs ih =>
+    cases t with
+    | client => exact invH_client ih hs
+    | worker => exact invH_worker ih hs
+
+theorem invS_reach {script : List Op} (hk : NoFinalize script) {s : State}
+    (h : Reach (init script) s) : InvS s := by
+  induction h with
+  | refl => exact ⟨hk, rfl⟩
+  | step t _ hs ih =>
+    cases t with
+    | client => exact invS_client ih hs
+    | worker => exact invS_worker ih hs
 
 /-- a running worker can always take its next step -/
 theorem worker_enabled {s : State} (h : s.working = true) : ∃ s', workerStep s = some s' := by
@@ -336,6 +486,7 @@ theorem client_enabled {s : State} (h : s.working = false)
     · rename_i op rest _
       have h' : s.worker.working = false := h
       cases op <;> simp [beginOp, State.working, h']
+      split <;> simp
   all_goals (try split)
   all_goals (try split)
   all_goals simp_all
